@@ -367,4 +367,61 @@ func registerRound5() {
 		},
 		Quick: 2, Thor: 3,
 	})
+
+	// ---------------------------------------------------------------- C18 / C07: a client stalls in the handshake of a
+	// TLS listener for half a minute; a session established before goes on undisturbed all the while
+	for _, stall := range []string{"listener-nohello", "listener-halfhello"} {
+		regSpec(&Spec{
+			Name: "tls-" + stall + "-for-30s-next-to-an-established-session", Props: []string{"C18", "C07"},
+			Srv: SrvOpts{TLS: getPKI().ServerCfg},
+			Conns: []ConnSpec{
+				{TLS: "listener", Ops: []string{"bind", "search"}, Segs: []int{1, 1}, Sync: true, SendNote: "later", Expect: 2, Name: "established"},
+				{TLS: stall, End: "stay", EndNote: "established-done", Name: "faulty", WaitNote: "established-connected"},
+			},
+			Extra: func(w *World) {
+				vrt.GoNamed("watch", func() {
+					vrt.WaitUntil("accepted", func() bool { return vnet.Accepted() >= 1 })
+					vrt.Atomic(func() { w.Notes["established-connected"]++ })
+					vrt.WaitUntil("accepted2", func() bool { return vnet.Accepted() >= 2 })
+					vrt.Sleep(secs(30))
+					vrt.Atomic(func() { w.Notes["later"]++ })
+				})
+			},
+			Check: servedCheck("C18", "a failed or abandoned TLS handshake ends more than its own connection: an established conforming session is no longer served"),
+			Quick: 2, Thor: 3,
+		})
+	}
+
+	// ---------------------------------------------------------------- C03: Stop races the reading of a request (the
+	// debug-level logger tells which requests were read)
+	for _, when := range []string{"now", "note:started-1"} {
+		sp := &Spec{
+			Name: "stop-races-the-reading-of-requests-" + strings.TrimPrefix(when, "note:"), Props: []string{"C03", "C11"},
+			Srv:      SrvOpts{Debug: true},
+			Conns:    []ConnSpec{{Ops: []string{"bind", "search", "modify"}, Segs: []int{1, 1, 1}, Read: "all"}},
+			StopWhen: when, Quick: 2, Thor: 3,
+		}
+		if when != "now" {
+			sp.Extra = watchStarted(1)
+		}
+		regSpec(sp)
+	}
+
+	// ---------------------------------------------------------------- C15 / C14 / C04: package-level state reached from
+	// several connections at once: result codes without a description, controls decoded by two read loops
+	regSpec(&Spec{
+		Name: "uncommon-result-codes-on-two-connections", Props: []string{"C15", "C04"},
+		Conns: []ConnSpec{
+			{Ops: []string{"search"}, H: map[int]*HSpec{1: {WaitStarted: 2, Code: 9}}, Expect: 1},
+			{Ops: []string{"bind"}, H: map[int]*HSpec{1: {WaitStarted: 2, Code: 15}}, Expect: 1},
+		},
+		Quick: 2, Thor: 3,
+	})
+	for _, op := range []string{"search-paged", "bind-behera"} {
+		regSpec(&Spec{
+			Name: "requests-with-controls-on-two-connections-" + op, Props: []string{"C15", "C14"},
+			Conns: []ConnSpec{{Ops: []string{op}, Expect: 1}, {Ops: []string{op}, Expect: 1}},
+			Quick: 2, Thor: 3,
+		})
+	}
 }
